@@ -38,7 +38,7 @@ def gen_cases(tier, seed):
         for j in range(nf):
             special = r.choice([0, 0, 0o4000, 0o2000, 0o1000, 0o6000, 0o7000, 0o5000, 0o3000])
             rwx = r.choice([0o644, 0o755, 0o600, 0o777, 0o000, 0o444, 0o751, 0o070, 0o007, 0o666, r.randrange(0o1000)])
-            e = {"p": "src/f%02d" % j, "k": "f", "size": r.choice([1, 100, 5000, 70000, 200000]), "seed": r.randrange(1, 1 << 30), "segs": None,
+            e = {"p": "src/f%02d" % j, "k": "f", "size": r.choice([0, 1, 100, 5000, 70000, 200000]), "seed": r.randrange(1, 1 << 30), "segs": None,
                  "mode": special | rwx, "mtime_ns": r.choice(MTIMES) + r.randrange(1000), "atime_ns": r.choice(MTIMES)}
             if r.random() < 0.6:
                 e["xattrs"] = {"user.a%d" % k: r.choice(["v%d" % r.randrange(10000), "", "\x00\x01\xff bin", "x" * 300]) for k in range(r.randint(1, 4))}
